@@ -412,6 +412,11 @@ def stack(arrays, axis=None, keys=None, align=False, **kwargs):
     # find common axes
     try: 
         axes = _get_axes(*arrays)
+        # (_get_axes lets length-1 axes pass, for broadcasting: here they must carry the same label, too)
+        for a in arrays:
+            for ax in a.axes:
+                if ax.size == 1 and axes[ax.name].size == 1 and not np.all(ax.values == axes[ax.name].values):
+                    raise ValueError("axes are not aligned")
     except ValueError as msg: 
         if 'axes are not aligned' in repr(msg):
             msg = 'axes are not aligned\n ==> Try passing `align=True`' 
